@@ -80,6 +80,7 @@ pub const BASE_PAIRS: &[(usize, &str, &str)] = &[
     (1, "b12-interfaces-extensions", "query($id: ID!) { n { id ... on Named { name } ... on P { friends(first: 2) { id } } } x(id: $id) { id name } e }"),
     (1, "b13-mutation-explicit-root", "mutation { set(v: 2, on: true) { e n { id } } }"),
     (2, "b14-response-shapes", "{ ab { ... on A { k: n o { x: n } l } ... on B { k: n o { x: n } l } } }"),
+    (0, "b16-abstract-parent-merging", "{ i { x: a ... on T { x: a } ... on V { x: a } } u { ... on I { y: a } ... on V { y: a } ... on T { y: a } } }"),
     (2, "b15-response-shapes-fragments", "{ ab { ...FA ...FB } } fragment FA on A { v: ln o { o { s } } } fragment FB on B { v: ln o { o { s } } }"),
 ];
 
